@@ -8,7 +8,8 @@ def _run(seed):
     if seed % 2 == 1:
         drivers.deep_book_history(seed)
         return
-    drivers.market_history(seed, offgrid=(seed % 3 == 0), tick=(0.5 if seed % 5 == 0 else 1.0))
+    tick = {0: 0.5, 5: 0.25, 10: 0.125, 15: 2.5}.get(seed % 20, 1.0)        # power-of-two ticks are checked exactly (C19); 2.5 has a two-digit mantissa
+    drivers.market_history(seed, offgrid=(seed % 3 == 0 or tick not in (0.5, 1.0)), tick=tick)
 
 
 def search(seed, tier, obligation, hints):
